@@ -947,7 +947,7 @@ fn c10_pool() -> Vec<(Vec<u8>, Option<RFile>)> {
         val_time: None,
         unit: Some(30),
         scaler: Some(-1),
-        value: if i == 1 { RValue::Bytes(vec![0x1b, 0x1b, 0x1b, 0x1b, 0x1b, 0, 0, 0, 0, 0, 0x1b]) } else { RValue::I32(-(i as i32) * 1000) },
+        value: if i == 1 { RValue::Bytes(vec![0x1b, 0x1b, 0x1b, 0x1b, 0x1b, 0x1b, 0x1b, 0x1b, 0x1b, 0, 0, 0, 0, 0, 0x1b]) } else { RValue::I32(-(i as i32) * 1000) },
         sig: if i == 2 { Some(vec![0x01, 0x01, 0x01, 0x01, 0x1b, 0x1b]) } else { None },
     };
     let gl = |vals: Vec<REntry>| RMsg { tid: vec![0xaa, 0xbb], group: 0, abort: 0, body: RBody::GetList { client_id: None, server_id: vec![1, 2, 3], list_name: None, act_sensor_time: Some(RTime::SecIndex(99)), vals, list_sig: None, act_gateway_time: None } };
@@ -1053,7 +1053,14 @@ fn c10_case(files: &[usize], noise: &[usize], choices: &[u8], out: &mut Vec<Viol
             tiles.push(Tile::Noise(g.len()));
         }
         stream.extend_from_slice(g);
-        stream.extend(canon(&pool[f].0));
+        // "each framed by the transport encoder": the real encoders, alternating (C07 shows that they
+        // equal the reference encoder; if they do not, the reader's results show it here as well)
+        let framed: Vec<u8> = if i % 2 == 0 {
+            guarded(|| sml_rs::transport::encode::<Vec<u8>>(&pool[f].0)).ok().and_then(|r| r.ok()).unwrap_or_else(|| canon(&pool[f].0))
+        } else {
+            guarded(|| sml_rs::transport::encode_streaming(&pool[f].0).take(pool[f].0.len() * 2 + 64).collect::<Vec<u8>>()).unwrap_or_else(|_| canon(&pool[f].0))
+        };
+        stream.extend(framed);
         tiles.push(Tile::Frame(f));
     }
     let g = NOISE[noise[files.len()]];
@@ -1155,6 +1162,50 @@ fn c10_bigfile(pool: &[(Vec<u8>, Option<RFile>)]) -> (Vec<Viol>, u64) {
             }
         });
         (parts.into_iter().flatten().collect::<Vec<Viol>>(), items.len() as u64)
+}
+
+/// A file that is one byte too long for the static buffer, between two files that fit: the reader
+/// must report OutOfMemory for it and deliver its neighbours untouched (every SML file ends in a
+/// zero byte, so the overflow happens when the withheld zero is flushed at the end sequence).
+fn c10_too_small(pool: &[(Vec<u8>, Option<RFile>)]) -> (Vec<Viol>, u64) {
+    let mut out = vec![];
+    let mut n = 0u64;
+    for (zi, small_i) in [(4usize, 1usize), (3, 1), (0, 1), (3, 2)] {
+        let z = &pool[zi];
+        let small = &pool[small_i];
+        let cap = z.0.len() - 1;
+        if !crate::dec::has_cap(cap) || small.0.len() > cap {
+            continue;
+        }
+        let mut stream = canon(&small.0);
+        stream.extend(canon(&z.0));
+        stream.extend(canon(&small.0));
+        stream.extend_from_slice(&[0x55]);
+        stream.extend(canon(&small.0));
+        for &src in SOURCES.iter() {
+            for c in 0..3u8 {
+                let ch = vec![c; 6];
+                let got = crate::dec::with_buf(BufKind::Arr(cap), DriveVisit { s: &stream, src, choices: &ch }).unwrap();
+                n += 1;
+                let f = |p: &(Vec<u8>, Option<RFile>)| match c {
+                    0 => Res::Bytes(p.0.clone()),
+                    1 => Res::File(Ok(p.1.clone().unwrap())),
+                    _ => Res::Events(p.1.clone().unwrap(), None),
+                };
+                let want = vec![f(small), Res::DecodeErr(DecodeErr::OutOfMemory), f(small), Res::DecodeErr(DecodeErr::DiscardedBytes(1)), f(small), Res::End];
+                if got != want {
+                    out.push(Viol {
+                        class: "C10 SmlReader does not yield exactly the transmitted files / noise counts / end of input".into(),
+                        key: format!("toosmall:{}:{:?}:{}", zi, src, c),
+                        what: format!("file of {} bytes with ArrayBuf<{}> between files that fit, {:?} choice {}: expected [{}] got [{}]", z.0.len(), cap, src, c, want.iter().map(res_short).collect::<Vec<_>>().join(", "), got.iter().map(res_short).collect::<Vec<_>>().join(", ")),
+                        case: J::obj().set("engine", "e3").set("check", "C10small"),
+                        size: 2,
+                    });
+                }
+            }
+        }
+    }
+    (out, n)
 }
 
 pub fn run_c10(tier: Tier) -> ! {
@@ -1283,6 +1334,14 @@ pub fn run_c10(tier: Tier) -> ! {
     }
     counts.addn("SmlParse::parse_from(&[u8]) comparisons", adapter_runs);
     {
+        let (vs, n) = c10_too_small(&pool);
+        for v in vs {
+            tally.add(v);
+        }
+        counts.addn("reader runs", n);
+        counts.addn("runs with a file one byte too long for the static buffer", n);
+    }
+    {
         let (vs, n) = c10_bigfile(&pool);
         for v in vs {
             tally.add(v);
@@ -1291,7 +1350,7 @@ pub fn run_c10(tier: Tier) -> ! {
         counts.addn("runs over a file of more than 2^16 bytes", n);
     }
     ctx.log(&format!("outcomes {:?}", counts.0));
-    counts.require(&["reader runs", "choice vectors of the full tree"]);
+    counts.require(&["reader runs", "choice vectors of the full tree", "runs with a file one byte too long for the static buffer", "runs over a file of more than 2^16 bytes"]);
     let n = counts.get("reader runs");
     let cov = J::obj()
         .set("states", counts.get("stream layouts (file sequence x noise placement)"))
@@ -1349,6 +1408,9 @@ pub fn replay(case: &J) -> Vec<Viol> {
             if direct_file != via_file || direct_ev != via_ev || via_bytes.as_deref() != Some(&x[..]) {
                 out.push(Viol { class: "C10 SmlParse::parse_from(&[u8]) differs from calling the parser directly".into(), key: "adapter".into(), what: String::new(), case: case.clone(), size: x.len() });
             }
+        }
+        Some("C10small") => {
+            out.extend(c10_too_small(&c10_pool()).0);
         }
         Some("C10big") => {
             out.extend(c10_bigfile(&c10_pool()).0);
